@@ -127,3 +127,84 @@ def final_shape_checks(ctx: Ctx) -> None:
             raises = any(isinstance(n, ast.If) and norm(n.test) == t and any(isinstance(x, ast.Raise) and 'ErrorInit' in norm(x.exc) for x in n.body) for n in walk_local(f.node))
             (ctx.ok if good and raises else ctx.bad)(R, f, f.node, f'`{t}` is tested (and raises) on every path to a normal exit' if good and raises else
                                                      f'a normal exit of {cname}.__init__ is reachable without the `{t}` check: a container whose data and labels disagree in size can be constructed', key=f'{cname}:{t}')
+
+
+def offset_discipline(ctx: Ctx) -> None:
+    R = 'I.block-offset-discipline'
+    ctx.rule(R, 'every loop over the blocks that keeps a running column offset (a local set to 0 before the loop and advanced inside it) '
+             'advances that offset on every path that reaches the next iteration — fall-through and `continue` alike: a skipped update '
+             'shifts every later block against the columns it is matched with', floor=10)
+    prog = ctx.prog
+    n = 0
+    for f in prog.all_funcs():
+        if isinstance(f.node, ast.Lambda):
+            continue
+        body_lists = [x for x in ast.walk(f.node) if isinstance(getattr(x, 'body', None), list)]
+        for holder in body_lists:
+            for field in ('body', 'orelse'):
+                stmts = getattr(holder, field, None)
+                if not isinstance(stmts, list):
+                    continue
+                for i, lp in enumerate(stmts):
+                    if not isinstance(lp, ast.For) or '_blocks' not in norm(lp.iter) and 'blocks' not in norm(lp.iter) and 'block_iter' not in norm(lp.iter):
+                        continue
+                    # candidates: names assigned the literal 0 in the statements preceding the loop (same block)
+                    zeros = set()
+                    for s in stmts[max(0, i - 6):i]:
+                        if isinstance(s, ast.Assign) and isinstance(s.value, ast.Constant) and s.value.value == 0 and not isinstance(s.value.value, bool):
+                            zeros |= {t.id for t in s.targets if isinstance(t, ast.Name)}
+                        elif isinstance(s, ast.Assign) and isinstance(s.targets[0], ast.Name) and isinstance(s.value, ast.Name) and False:
+                            pass
+                        if isinstance(s, ast.Assign) and len(s.targets) > 1 and isinstance(s.value, ast.Constant) and s.value.value == 0:
+                            zeros |= {t.id for t in s.targets if isinstance(t, ast.Name)}
+                    for name in sorted(zeros):
+                        # advanced inside the loop from another local (offset = end) or by += : a running offset
+                        adv = [a for a in ast.walk(lp) if (isinstance(a, ast.Assign) and any(isinstance(t, ast.Name) and t.id == name for t in a.targets)
+                                                          and isinstance(a.value, ast.Name)) or
+                               (isinstance(a, ast.AugAssign) and isinstance(a.target, ast.Name) and a.target.id == name and isinstance(a.op, ast.Add))]
+                        if not adv:
+                            continue
+                        # only top-level-or-branch updates (an update inside an inner loop is a different pattern)
+                        n += 1
+                        ok, where = _offset_paths(lp, name)
+                        if ok is None:
+                            n -= 1
+                            continue
+                        key = f'{f.name}:{name}@{norm(lp.iter)[:30]}'
+                        (ctx.ok if ok else ctx.bad)(R, f, lp, f'`{name}` is advanced on every path to the next iteration' if ok else
+                                                    f'the running offset `{name}` is not advanced on the path through {where}: every following block is matched against the wrong columns', key=key)
+    ctx.require(n >= 8, 'block loops with a running offset')
+
+
+def _offset_paths(lp: ast.For, name: str) -> tp.Tuple[tp.Optional[bool], str]:
+    '''The rule instance is a loop whose advance of `name` is a top-level statement of the loop body (a per-iteration
+    advance by design).  Every `continue` that precedes it must have advanced the offset itself, unless its guard is a
+    zero-size test (`x == 0`: nothing to advance by).  None = not an instance (the advance is itself conditional).'''
+    def is_adv(s: ast.stmt) -> bool:
+        if isinstance(s, ast.Assign) and any(isinstance(t, ast.Name) and t.id == name for t in s.targets):
+            return True
+        return isinstance(s, ast.AugAssign) and isinstance(s.target, ast.Name) and s.target.id == name
+    top = [i for i, s in enumerate(lp.body) if is_adv(s)]
+    if not top:
+        return None, ''
+    last = top[-1]
+    bad = []
+
+    def scan(stmts: tp.Sequence[ast.stmt], advanced: bool, guards: tp.List[ast.expr]) -> None:
+        adv = advanced
+        for s in stmts:
+            if is_adv(s):
+                adv = True
+            elif isinstance(s, ast.Continue):
+                zero = any(isinstance(g, ast.Compare) and len(g.ops) == 1 and isinstance(g.ops[0], ast.Eq)
+                           and isinstance(g.comparators[0], ast.Constant) and g.comparators[0].value == 0 for g in guards)
+                if not adv and not zero:
+                    bad.append(f'the `continue` at line {s.lineno}')
+            elif isinstance(s, ast.If):
+                scan(s.body, adv, guards + [s.test])
+                scan(s.orelse, adv, guards)
+            elif isinstance(s, (ast.With, ast.Try)):
+                scan(s.body, adv, guards)
+            # inner loops: their continue belongs to them
+    scan(lp.body[:last], False, [])
+    return (not bad), ' and '.join(bad)
